@@ -56,7 +56,15 @@ DTags == {"1e-12", "1e-9", "1e-6", "1e-4", "1e-3", "1e-2", "0.05", "0.5", "2", "
 STags == {"0", "1e-12", "0.25", "0.5", "0.9", "1-1e-12", "1"}
 VInterp(c, dt, st, ws, dir) == DoV("v-interp", [entry |-> c, d |-> dt, s |-> st, start |-> ws, dir |-> dir])
 
+\* normalisation as a constructor of group members (C01): a member spoiled in a named way and then normalised must be
+\* a valid member again, for every entry point (base function, class method, 2D and 3D, quaternion)
+NormNoise == {"round-2", "round-3", "round-4", "entry+1e-3", "entry+1e-6", "shear-1e-2", "scale-1.001", "column-scale-1.01", "none"}
+NormEntries == {"trnorm(R)", "trnorm(T)", "SO3.norm", "SE3.norm", "trnorm2(R)", "trnorm2(T)", "SO2.norm", "SE2.norm",
+                "UnitQuaternion.unit", "Quaternion.unit", "base.unit"}
+VNorm(e, nz, dir) == DoV("v-norm", [entry |-> e, noise |-> nz, dir |-> dir])
+
 Next ==
+  \/ \E e \in NormEntries : \E nz \in NormNoise : \E dir \in {<<1,0,0>>, <<1,-2,3>>, <<1,1,1>>} : VNorm(e, nz, dir)
   \/ \E ax \in {"x", "y", "z"} : \E a \in VTags1 : VRot(ax, a)
   \/ \E o \in OrderNames : \E a \in VTags3 : \E b \in VTags3 : \E c \in VTags3 : VRPY(o, a, b, c)
   \/ \E a \in VTags3 : \E b \in VTags3 : \E c \in VTags3 : VEul(a, b, c)
